@@ -46,7 +46,7 @@ def mandatory_bins(tier):
     b = ["len_mod16_%d" % i for i in range(16)] + ["trailing_zeros_%d" % z for z in range(18)]
     b += ["all_zero_content", "via_set_config", "via_direct_construction", "framing_bf3", "framing_bec2", "needle_scan", "needle_session_key", "needle_security_code",
           "needle_customer_key", "needle_plaintext_block", "key_ends_00", "default_key", "cipher_unregistered", "cipher_fails_at_call", "cipher_fails_at_first_call",
-          "cipher_fails_at_last_call", "fault_stream", "fault_path", "read_back_with_key", "long_content", "content_longer_than_1024", "rewrite_after_content_change", "rewrite_after_in_place_content_change", "set_config_over_preexisting_plain_configuration", "target_is_a_file_name", "read_back_without_mac_check", "rewrite_of_a_read_back_object", "rewrite_under_another_key", "marked_for_encryption_after_construction"]
+          "cipher_fails_at_last_call", "fault_stream", "fault_path", "read_back_with_key", "long_content", "content_longer_than_1024", "rewrite_after_content_change", "rewrite_after_in_place_content_change", "set_config_over_preexisting_plain_configuration", "target_is_a_file_name", "read_back_without_mac_check", "rewrite_of_a_read_back_object", "rewrite_under_another_key", "marked_for_encryption_after_construction", "unusable_key_given_explicitly"]
     return b
 
 
@@ -417,6 +417,26 @@ def fault_case(ns, ctx, rng, scratch, idx):
             if not raised:
                 ctx.violation("write_returns_normally_although_cipher_failed", {"fail_at": fail_at, "of": total, "mode": mode, "framing": framing}, rp)
             scan(ctx, "after_cipher_failure", needles, out.encode("latin-1", "replace"), out, rp)
+    # an unusable key handed over explicitly (None, empty, short): whatever the writer does with it, what reaches the target
+    # must not contain the plaintext
+    for badkey in (None, b"", b"short"):
+        for how in ("write_file", "to_binary"):
+            target = io.StringIO()
+            out_bin = b""
+            try:
+                obj, blob = build()
+                f3 = obj.bf3file if framing == "bec2" else obj
+                if how == "write_file":
+                    f3.write_file(target, badkey)
+                else:
+                    out_bin = f3.to_binary(0, badkey) or b""
+            except Exception as e:
+                ctx.exc(e)
+            ctx.ev()
+            ctx.bin("unusable_key_given_explicitly")
+            ctx.mon("fault_injected")
+            out = target.getvalue()
+            scan(ctx, "unusable_key_%s" % ("none" if badkey is None else "len%d" % len(badkey)), [n_ for n_ in needles if n_[0] == "plaintext_block"], bytes(out_bin), out, rp)
     # cipher not registered at all (base class raises NotImplementedError)
     ns.crypto.register_AES128(ns.crypto.AES128)
     try:
